@@ -21,6 +21,11 @@ use tsgen::{MonotonicTimestampGenerator, TimestampGenerator};
 use vcore::Report;
 
 const PREEMPTION_BOUND: usize = 3;
+/// preemption bound of the models run next by this process (0 = unbounded)
+static BOUND: std::sync::atomic::AtomicUsize = std::sync::atomic::AtomicUsize::new(PREEMPTION_BOUND);
+fn bound() -> usize {
+    BOUND.load(std::sync::atomic::Ordering::Relaxed)
+}
 const SCRIPT_LEN: usize = 6;
 
 #[derive(Clone, Copy, Debug, PartialEq, Eq)]
@@ -170,7 +175,10 @@ fn body(script: [u8; SCRIPT_LEN], threads: u8, calls: u8, cfg: Cfg) {
 fn run_model(script: [u8; SCRIPT_LEN], threads: u8, calls: u8, cfg: Cfg) -> ModelOut {
     ACC.with(|a| *a.borrow_mut() = ModelOut::default());
     let mut b = loom::model::Builder::new();
-    b.preemption_bound = Some(PREEMPTION_BOUND);
+    b.preemption_bound = match bound() {
+        0 => None,
+        n => Some(n),
+    };
     b.max_branches = 10_000;
     b.max_duration = None;
     b.max_permutations = None;
@@ -210,7 +218,7 @@ fn log_json(log: &[Ev]) -> Value {
 }
 
 fn case_json(script: &[u8], threads: u8, calls: u8, cfg: Cfg) -> Value {
-    json!({"script": script, "script_names": script_names(script), "threads": threads, "calls": calls, "cfg": cfg.name(), "preemption_bound": PREEMPTION_BOUND})
+    json!({"script": script, "script_names": script_names(script), "threads": threads, "calls": calls, "cfg": cfg.name(), "preemption_bound": bound()})
 }
 
 #[derive(Default)]
@@ -320,6 +328,9 @@ struct Plan {
     len_cfg: usize,
     sampled: u64,
     audit_every: u64,
+    /// thorough extras: 2 threads x 3 calls; 2x2 with NO preemption bound (0 = sweep off)
+    len_2x3: usize,
+    len_unbounded: usize,
 }
 
 fn plan(r: &Report) -> Plan {
@@ -330,6 +341,8 @@ fn plan(r: &Report) -> Plan {
         len_cfg: q("--len-cfg", 3, 5),
         sampled: r.args.extra_value("--sampled").and_then(|s| s.parse().ok()).unwrap_or(r.tier().pick(200u64, 0u64)),
         audit_every: r.tier().pick(8u64, 64u64),
+        len_2x3: q("--len-2x3", 0, 4),
+        len_unbounded: q("--len-unbounded", 2, 4),
     }
 }
 
@@ -364,6 +377,20 @@ fn worker(r: Report, k: u64, n: u64) -> ! {
             sw.one((4, i), script_of(pick, SCRIPT_LEN), 2, 2, Cfg::Default, false, "2x2-sampled");
         }
     }
+    // (5) 2 threads x 3 calls (six calls: every symbol of a length-6 script can be consumed without a retry)
+    if p.len_2x3 > 0 {
+        for i in (0..pow(p.len_2x3)).filter(|i| mine(*i)) {
+            sw.one((5, i), script_of(i, p.len_2x3), 2, 3, Cfg::Default, i % p.audit_every == 0, "2x3");
+        }
+    }
+    // (6) 2x2 with no preemption bound at all (every interleaving loom distinguishes)
+    if p.len_unbounded > 0 {
+        BOUND.store(0, std::sync::atomic::Ordering::Relaxed);
+        for i in (0..pow(p.len_unbounded)).filter(|i| mine(*i)) {
+            sw.one((6, i), script_of(i, p.len_unbounded), 2, 2, Cfg::Default, i % p.audit_every == 0, "2x2-unbounded");
+        }
+        BOUND.store(PREEMPTION_BOUND, std::sync::atomic::Ordering::Relaxed);
+    }
     let a = sw.agg.into_inner();
     let r = sw.r;
     use std::sync::atomic::Ordering::Relaxed;
@@ -389,6 +416,7 @@ fn replay(r: &Report, case: &Value) {
     let threads = case["threads"].as_u64().unwrap_or(2) as u8;
     let calls = case["calls"].as_u64().unwrap_or(2) as u8;
     let cfg = Cfg::parse(case["cfg"].as_str().unwrap_or("default"));
+    BOUND.store(case["preemption_bound"].as_u64().unwrap_or(PREEMPTION_BOUND as u64) as usize, std::sync::atomic::Ordering::Relaxed);
     println!("replaying loom model {threads}x{calls} cfg={} clock script {:?} (loom is deterministic: the recorded execution number recurs)", cfg.name(), script_names(&s));
     let out = run_model(s, threads, calls, cfg);
     println!("  {} loom executions, {} distinct outcomes", out.executions, out.outcomes.len());
@@ -472,9 +500,9 @@ fn main() {
     r.note("loom_models", json!(a.models));
     r.note("loom_executions", json!(a.executions));
     r.note("executions_per_model_min_max", json!([a.min_execs, a.max_execs]));
-    r.note("clock_scripts", json!({"2x2 default cfg": pow(p.len_2x2), "3x1 warn-always": pow(p.len_3x1), "2x2 warn-always + no-warnings": 2 * pow(p.len_cfg), "2x2 sampled full-length": p.sampled}));
-    r.note("script_length", json!({"2x2": p.len_2x2, "3x1": p.len_3x1, "2x2-cfg": p.len_cfg, "max": SCRIPT_LEN}));
-    r.note("preemption_bound", json!(PREEMPTION_BOUND));
+    r.note("clock_scripts", json!({"2x2 default cfg": pow(p.len_2x2), "3x1 warn-always": pow(p.len_3x1), "2x2 warn-always + no-warnings": 2 * pow(p.len_cfg), "2x2 sampled full-length": p.sampled, "2x3 default": if p.len_2x3 > 0 { pow(p.len_2x3) } else { 0 }, "2x2 unbounded preemptions": if p.len_unbounded > 0 { pow(p.len_unbounded) } else { 0 }}));
+    r.note("script_length", json!({"2x2": p.len_2x2, "3x1": p.len_3x1, "2x2-cfg": p.len_cfg, "2x3": p.len_2x3, "2x2-unbounded": p.len_unbounded, "max": SCRIPT_LEN}));
+    r.note("preemption_bound", json!({"default": PREEMPTION_BOUND, "sweep 2x2-unbounded": "none"}));
     r.note("worker_processes", json!(n));
     r.note("determinism_audit", json!({"models_run_twice": a.audited_models, "executions_compared": a.audited_execs}));
     a.samples.sort_by_key(|s| (s["one_execution_with_a_failed_compare_exchange"].is_null(), s["script"].to_string()));
